@@ -66,6 +66,27 @@ template<class Graph> struct Comp {
         emit(j.str());
     }
 
+    // families too large to log edge by edge (degrees beyond 2^8 / 2^16): the graph is described by (family, a, b) and TLC
+    // decides the clauses with the family's closed form (Components!FvsFamViol)
+    //   wheel a   : hub 0, rim 1..a (a cycle), a spokes
+    //   hubtri a b: hub 0, a triangles (0, 2i-1, 2i), b leaves 2a+1..2a+b
+    static void fvs_family(const InGraph &in, const std::string &fam, long a, long b) {
+        Graph g;
+        if (fam == "wheel") {
+            for (long i = 0; i <= a; i++) boost::add_vertex(g);
+            for (long i = 1; i <= a; i++) { boost::add_edge(0, (size_t) i, g); boost::add_edge((size_t) i, (size_t) (i % a + 1), g); }
+        } else {
+            for (long i = 0; i <= 2 * a + b; i++) boost::add_vertex(g);
+            for (long i = 1; i <= a; i++) { boost::add_edge(0, (size_t) (2 * i - 1), g); boost::add_edge((size_t) (2 * i - 1), (size_t) (2 * i), g); boost::add_edge((size_t) (2 * i), 0, g); }
+            for (long i = 1; i <= b; i++) boost::add_edge(0, (size_t) (2 * a + i), g);
+        }
+        std::vector<Vertex> out;
+        parmcb::greedy_fvs(g, std::back_inserter(out));
+        std::vector<long> o(out.begin(), out.end());
+        for (auto &x : o) if (x < 0 || x > 100000000) x = -1;
+        emit(J().s("e", "FvsFam").s("fam", fam).i("id", in.id).i("a", a).i("b", b).arr("out", o).str());
+    }
+
     typedef parmcb::SPTree<Graph, WMap> Tree;
 
     static std::string tree_json(const InGraph &in, Built<Graph> &b, Tree &t) {
@@ -128,6 +149,9 @@ template<class Graph> struct Comp {
 
 template<class Graph> void run_mode(const std::string &mode, const InGraph &g, const char *wt) {
     try {
+        std::string fam; long fa = 0, fb = 0;
+        for (auto &t : g.extra) { auto kv = split(t, '='); if (kv.size() == 2) { if (kv[0] == "fam") fam = kv[1]; else if (kv[0] == "a") fa = atol(kv[1].c_str()); else if (kv[0] == "b") fb = atol(kv[1].c_str()); } }
+        if (!fam.empty()) { if (mode == "fvs") Comp<Graph>::fvs_family(g, fam, fa, fb); return; }
         if (mode == "forest") Comp<Graph>::forest(g, wt);
         else if (mode == "fvs") Comp<Graph>::fvs(g, wt);
         else if (mode == "spt") Comp<Graph>::spt(g, wt);
